@@ -140,38 +140,58 @@ theorem c08_interlock_run (P : RsParams) (ops : List RsOp) (s : Rs) (h : Interlo
 
 /-! ### spacing -/
 
+/-- elapsed time as the firmware computes it from a stamp taken at true time `τ`: exact modulo 2^32, or one
+    microsecond short when the counter read 0 at `τ` (0 is reserved for "not set", the stamp is 1 then) -/
+theorem elapsed_from_stamp (boot τ now : Nat) (hlt : τ < now) :
+    subw (cnt boot now) (stamp (cnt boot τ)) = (now - τ) % W32 ∨
+    subw (cnt boot now) (stamp (cnt boot τ)) = (now - τ - 1) % W32 := by
+  unfold stamp
+  by_cases h0 : cnt boot τ = 0
+  · rw [if_pos h0]
+    right
+    unfold subw cnt W32 at *
+    omega
+  · rw [if_neg h0]
+    left
+    unfold subw cnt W32
+    omega
+
 /-- **C08.2a (the delay is exact across a wrap)** if both outputs went off at true time `τ` and
-    were stamped then (non-zero stamp), the start delay computed at a later true time `now` uses
-    the true elapsed time modulo 2^32 — for every boot value. -/
+    were stamped then, the start delay computed at a later true time `now` uses the true elapsed time
+    modulo 2^32 (at most one microsecond less) — for every boot value, also when the counter read 0 at `τ`. -/
 theorem c08_delay_uses_true_elapsed (P : RsParams) (hs0 : P.startDelay ≠ 0) (s : Rs) (τ : Nat)
-    (hstart : s.startT = 0) (hstop : s.stopT = cnt s.boot τ) (hnz : cnt s.boot τ ≠ 0) (hle : τ ≤ s.now) :
-    Rs.startDelayOf P s =
-      (if (s.now - τ) % W32 / 1000 < P.startDelay then P.startDelay - (s.now - τ) % W32 / 1000 + 1 else 0) := by
-  have hel : subw (cnt s.boot s.now) (cnt s.boot τ) = (s.now - τ) % W32 := by
-    unfold subw cnt W32; omega
+    (hstart : s.startT = 0) (hstop : s.stopT = stamp (cnt s.boot τ)) (hlt : τ < s.now) :
+    ∃ e, (e = (s.now - τ) % W32 ∨ e = (s.now - τ - 1) % W32) ∧
+      Rs.startDelayOf P s = (if e / 1000 < P.startDelay then P.startDelay - e / 1000 + 1 else 0) := by
+  refine ⟨subw (cnt s.boot s.now) (stamp (cnt s.boot τ)), elapsed_from_stamp s.boot τ s.now hlt, ?_⟩
+  have hpos : stamp (cnt s.boot τ) > 0 := by unfold stamp; split <;> omega
   unfold Rs.startDelayOf
-  rw [hstop, hel]
-  by_cases hc : (s.now - τ) % W32 / 1000 < P.startDelay
-  · rw [if_pos hc, if_pos ⟨hs0, hstart, Nat.pos_of_ne_zero hnz, hc⟩]
+  rw [hstop]
+  by_cases hc : subw (cnt s.boot s.now) (stamp (cnt s.boot τ)) / 1000 < P.startDelay
+  · rw [if_pos hc, if_pos ⟨hs0, hstart, hpos, hc⟩]
   · rw [if_neg hc, if_neg (fun h => hc h.2.2.2)]
 
 /-- **C08.2b (spacing, the decisive inequality)** whenever the computed delay does not exceed the
     scheduling threshold — the only case in which `set_relay` energises an output at once — at
     least `startDelay - thresh - 1` ms of true time have passed since the outputs went off; with no
-    upper bound on the elapsed time and wherever the counter wrapped. -/
+    upper bound on the elapsed time, wherever the counter wrapped and whatever it read at the stop. -/
 theorem c08_spacing (P : RsParams) (hP : P.thresh < P.startDelay) (hs0 : P.startDelay ≠ 0) (s : Rs) (τ : Nat)
-    (hstart : s.startT = 0) (hstop : s.stopT = cnt s.boot τ) (hnz : cnt s.boot τ ≠ 0) (hle : τ ≤ s.now)
+    (hstart : s.startT = 0) (hstop : s.stopT = stamp (cnt s.boot τ)) (hlt : τ < s.now)
     (hd : ¬ Rs.startDelayOf P s > P.thresh) :
     τ + (P.startDelay - P.thresh - 1) * 1000 ≤ s.now := by
-  rw [c08_delay_uses_true_elapsed P hs0 s τ hstart hstop hnz hle] at hd
-  have h2 : (s.now - τ) % W32 ≤ s.now - τ := Nat.mod_le _ _
-  have hdm := Nat.div_mul_le_self ((s.now - τ) % W32) 1000
-  by_cases hc : (s.now - τ) % W32 / 1000 < P.startDelay
+  obtain ⟨e, he, hdel⟩ := c08_delay_uses_true_elapsed P hs0 s τ hstart hstop hlt
+  rw [hdel] at hd
+  have hle : e ≤ s.now - τ := by
+    rcases he with he | he
+    · rw [he]; exact Nat.mod_le _ _
+    · rw [he]; exact Nat.le_trans (Nat.mod_le _ _) (Nat.sub_le _ _)
+  have hdm := Nat.div_mul_le_self e 1000
+  by_cases hc : e / 1000 < P.startDelay
   · rw [if_pos hc] at hd
-    have h1 : P.startDelay - P.thresh - 1 ≤ (s.now - τ) % W32 / 1000 := by omega
+    have h1 : P.startDelay - P.thresh - 1 ≤ e / 1000 := by omega
     have := Nat.mul_le_mul_right 1000 h1
     omega
-  · have h1 : P.startDelay ≤ (s.now - τ) % W32 / 1000 := by omega
+  · have h1 : P.startDelay ≤ e / 1000 := by omega
     have h3 := Nat.mul_le_mul_right 1000 h1
     have : (P.startDelay - P.thresh - 1) * 1000 ≤ P.startDelay * 1000 :=
       Nat.mul_le_mul_right 1000 (by omega)
@@ -200,7 +220,7 @@ theorem c08_delayed_not_immediate (P : RsParams) (s : Rs) (v : Nat) (sd bu bd : 
 theorem c08_reversal_forces_off (P : RsParams) (s : Rs) (pu pd : Nat) (hup : s.up = true)
     (hil : Interlock s) (hrun : s.stopT = 0) :
     (s.forceOpp P 1 pu pd).1.up = false ∧ (s.forceOpp P 1 pu pd).1.down = false ∧
-    (s.forceOpp P 1 pu pd).1.startT = 0 ∧ (s.forceOpp P 1 pu pd).1.stopT = cnt s.boot s.now ∧
+    (s.forceOpp P 1 pu pd).1.startT = 0 ∧ (s.forceOpp P 1 pu pd).1.stopT = stamp (cnt s.boot s.now) ∧
     (s.forceOpp P 1 pu pd).1.now = s.now + P.preUs + P.dblUs + P.postUs + P.oppUs := by
   have hdown : s.down = false := by
     cases hd : s.down
@@ -216,9 +236,9 @@ theorem c08_reversal_forces_off (P : RsParams) (s : Rs) (pu pd : Nat) (hup : s.u
 /-- for the constants of the source tree: an immediate start happens no earlier than 899 ms after
     the outputs went off -/
 theorem c08_spacing_repo (s : Rs) (τ : Nat)
-    (hstart : s.startT = 0) (hstop : s.stopT = cnt s.boot τ) (hnz : cnt s.boot τ ≠ 0) (hle : τ ≤ s.now)
+    (hstart : s.startT = 0) (hstop : s.stopT = stamp (cnt s.boot τ)) (hlt : τ < s.now)
     (hd : ¬ Rs.startDelayOf Gen.rsParams s > Gen.rsParams.thresh) : τ + 899000 ≤ s.now :=
-  c08_spacing Gen.rsParams (by decide) (by decide) s τ hstart hstop hnz hle hd
+  c08_spacing Gen.rsParams (by decide) (by decide) s τ hstart hstop hlt hd
 
 /-- non-vacuity: a stop at true time 2.8 s stamped just before the counter wraps, then a DOWN
     command 0.5 s later (after the wrap): nothing is energised, a delayed start is scheduled for
@@ -228,5 +248,15 @@ example :
                     offSince := some 2800000 }
     (s.setRelay Gen.rsParams 1 false false false 1 2).2 = [] ∧
     (s.setRelay Gen.rsParams 1 false false false 1 2).1.trig = some (1, 3300000 + 501000) := by decide
+
+/-- non-vacuity of the zero reading: the shutter runs up, a DOWN command arrives at the very microsecond the
+    counter wraps to 0: the up output goes off (stamp 1, not 0), nothing is energised, the start is scheduled.
+    Before the repair in /repo the stamp 0 read as "never stopped" and the down output followed 20 ms later. -/
+example :
+    let s : Rs := { up := true, startT := 7, boot := 4294967296 - 1500000, now := 1500000 }
+    (s.setRelay Gen.rsParams 1 false false false 1 2).1.up = false ∧
+    (s.setRelay Gen.rsParams 1 false false false 1 2).1.down = false ∧
+    (s.setRelay Gen.rsParams 1 false false false 1 2).1.stopT = 1 ∧
+    (s.setRelay Gen.rsParams 1 false false false 1 2).1.trig.isSome = true := by decide
 
 end SuplaVerif.C08
